@@ -1,9 +1,310 @@
-import Bpmn.Model.Tracer
+import Bpmn.Lemmas.Tracer
+import Bpmn.Lemmas.TracerProgress
 import Bpmn.Spec.Causal
-/-! # C09 — placeholder while the proofs are grown (breadth-first) -/
+/-!
+# C09 — the trace stream is one causally consistent total order, the same for all subscribers
+
+Model: `Bpmn.Model.Tracer` — the broadcaster goroutine of pkg/tracing/tracer.go at channel-operation granularity
+(unbuffered request channels, ordered subscriber list, bounded subscriber buffers, swap-removal, the draining
+`Unsubscribe` loop), with an explicit scheduler: `run cfg init sched` for an ARBITRARY list `sched` of actions
+(actions that are not enabled where they are scheduled are skipped). All theorems below quantify over every `sched`,
+i.e. over every interleaving of any number of senders, subscribers, buffer sizes and consumer speeds, of any length.
+
+`s.misuse = false` excludes exactly the runs in which `Unsubscribe` was called on a channel that is not subscribed
+(see `unsubscribe_unsubscribed_spins`): the property speaks about subscribers.
+-/
 namespace Bpmn.Props.C09
 open Bpmn.Model.Tracer
 
-theorem run_nil (cfg : Cfg) (s : St) : run cfg s [] = s := rfl
+/-! ## 1. every subscriber sees a contiguous segment of the one global order -/
+
+/-- `tracer_segment`. For every schedule and every channel that was ever appended to the subscriber list: what its
+consumer received, then what its `Unsubscribe` loop drained, then what is still queued, is exactly the global send
+order (`log`: the order in which the broadcaster took the traces) from the position at which the channel was appended
+(`start`) up to `upto`: the position at which it was removed, or — while it is subscribed — the end of the log, minus
+the one trace the range loop is still carrying towards it. Nothing dropped, nothing duplicated, nothing reordered;
+the swap-removal of another channel never shows. -/
+theorem tracer_segment (cfg : Cfg) (sched : List Act) (s : St) (hs : s = run cfg init sched) :
+    s.misuse = false →
+    ∀ c, (s.chan c).stat ≠ .absent → (s.chan c).stat ≠ .subWait →
+      (s.chan c).recvd ++ (s.chan c).drained ++ (s.chan c).buf = (s.log.take (s.upto c)).drop (s.chan c).start := by
+  intro hm c h1 h2
+  have hinv : Inv s := by rw [hs] at hm ⊢; exact inv_run cfg sched hm
+  have hf : (s.chan c).stat.fresh = false := by
+    cases hst : (s.chan c).stat <;> simp_all [CStat.fresh]
+  exact hinv.seg c hf
+
+/-- the bounds of the segment: `start ≤ upto ≤ |log|` -/
+theorem tracer_segment_bounds (cfg : Cfg) (sched : List Act) (s : St) (hs : s = run cfg init sched) :
+    s.misuse = false →
+    ∀ c, (s.chan c).stat ≠ .absent → (s.chan c).stat ≠ .subWait →
+      (s.chan c).start ≤ s.upto c ∧ s.upto c ≤ s.log.length := by
+  intro hm c h1 h2
+  have hinv : Inv s := by rw [hs] at hm ⊢; exact inv_run cfg sched hm
+  have hf : (s.chan c).stat.fresh = false := by
+    cases hst : (s.chan c).stat <;> simp_all [CStat.fresh]
+  exact ⟨hinv.startLe c hf, hinv.upto_le c⟩
+
+/-- Same order for all: the k-th trace a subscriber received is the (start + k)-th trace of the global order. Two
+subscribers therefore agree on every position both cover, and none of them sees a trace twice or skips one. -/
+theorem tracer_same_order (cfg : Cfg) (sched : List Act) (s : St) (hs : s = run cfg init sched) :
+    s.misuse = false →
+    ∀ c k m, (s.chan c).recvd[k]? = some m → s.log[(s.chan c).start + k]? = some m := by
+  intro hm c k m hk
+  have hne : (s.chan c).recvd ≠ [] := by intro e; rw [e] at hk; cases hk
+  have hinv : Inv s := by rw [hs] at hm ⊢; exact inv_run cfg sched hm
+  have hf : (s.chan c).stat.fresh = false := by
+    cases hfr : (s.chan c).stat.fresh with
+    | false => rfl
+    | true =>
+      have := hinv.fresh c hfr
+      simp only [Chan.total, List.append_eq_nil_iff] at this
+      exact absurd this.1.1 hne
+  have hseg := hinv.seg c hf
+  unfold Chan.total St.segment at hseg
+  have hlt : k < (s.chan c).recvd.length := by
+    rcases Nat.lt_or_ge k (s.chan c).recvd.length with h | h
+    · exact h
+    · rw [List.getElem?_eq_none h] at hk; cases hk
+  have h1 : ((s.chan c).recvd ++ (s.chan c).drained ++ (s.chan c).buf)[k]? = some m := by
+    rw [List.append_assoc, List.getElem?_append_left hlt]; exact hk
+  rw [hseg, List.getElem?_drop, List.getElem?_take] at h1
+  split at h1
+  · exact h1
+  · cases h1
+
+/-- Nothing is withheld: while the broadcaster is in its `select`, a subscribed channel holds (received, drained or
+queued) every trace sent since its subscription. -/
+theorem tracer_complete_when_idle (cfg : Cfg) (sched : List Act) (s : St) (hs : s = run cfg init sched) :
+    s.misuse = false → s.pc = .idle →
+    ∀ c, c ∈ s.subs →
+      (s.chan c).recvd ++ (s.chan c).drained ++ (s.chan c).buf = s.log.drop (s.chan c).start := by
+  intro hm hpc c hc
+  have hinv : Inv s := by rw [hs] at hm ⊢; exact inv_run cfg sched hm
+  have hl := (hinv.listed c).mp hc
+  have hf : (s.chan c).stat.fresh = false := by
+    rcases stat_class (s.chan c).stat with ⟨_, b, _⟩ | ⟨a, _, _⟩ | ⟨_, b, _⟩
+    · rw [hl] at b; cases b
+    · exact a
+    · rw [hl] at b; cases b
+  have hr : (s.chan c).stat.removed = false := by
+    rcases stat_class (s.chan c).stat with ⟨_, b, _⟩ | ⟨_, _, a⟩ | ⟨_, b, _⟩
+    · rw [hl] at b; cases b
+    · exact a
+    · rw [hl] at b; cases b
+  have hseg := hinv.seg c hf
+  unfold Chan.total St.segment at hseg
+  have hidle : ∀ x i, s.pc ≠ .push x i := by intro x i; rw [hpc]; simp
+  rw [upto_idle hidle, hinv.stopNone c hr] at hseg
+  simpa [List.take_length] using hseg
+
+/-- The removal (`subscribers[pos] = subscribers[l]; subscribers = subscribers[:l]`) takes out exactly the
+unsubscribing channel: every other channel keeps its place in the list exactly once and its contents untouched. -/
+theorem tracer_removal_keeps_others (cfg : Cfg) (sched : List Act) (c : Nat) (s : St)
+    (hs : s = run cfg init sched) :
+    s.misuse = false → c ∈ s.subs →
+    (s.removeSub c).subs.Nodup ∧ (∀ j, j ∈ (s.removeSub c).subs ↔ (j ∈ s.subs ∧ j ≠ c)) ∧
+    ∀ j, j ≠ c → (s.removeSub c).chan j = s.chan j := by
+  intro hm hc
+  have hinv : Inv s := by rw [hs] at hm ⊢; exact inv_run cfg sched hm
+  obtain ⟨h1, h2⟩ := swapRemove_spec hc hinv.nodup
+  refine ⟨h1, h2, ?_⟩
+  intro j hj
+  simp [St.removeSub, hj]
+
+/-! ## 2. the global order extends every sender's program order -/
+
+/-- `tracer_sender_order`. For every schedule and every sender: the sequence numbers of that sender's traces, in the
+order the broadcaster took them, are `0, 1, 2, …` — the global order restricted to one sender is that sender's
+program order (a sender is a sequential goroutine: one `Send` at a time). -/
+theorem tracer_sender_order (cfg : Cfg) (sched : List Act) (sd : Nat) (s : St) (hs : s = run cfg init sched) :
+    ((s.log.filter (fun m => m.sender == sd)).map (·.seq)) =
+      List.range ((s.log.filter (fun m => m.sender == sd)).length) := by
+  subst hs
+  have h := (sinv_run cfg sched).order sd
+  have := prefix_of_range h
+  simpa [seqsOf] using this
+
+/-! ## 3. subscribing, unsubscribing and sending concurrently never deadlocks -/
+
+/-- `tracer_unsub_progress`. Take any reachable state and let only goroutines that are already inside the protocol
+move (the broadcaster, clients finishing their `Send` / `SubscribeChannel` / `Unsubscribe`, consumers of subscribed
+channels taking traces, the `Unsubscribe` loop draining its own channel) — no new call is begun. Then
+(a) however these steps are scheduled, at most `mu s` of them can happen (`mu` is computed from the state: blocked
+    sends × subscribers, remaining pushes, queued traces, open hand-shakes);
+(b) as long as some call has not returned (`Busy`), one of them is enabled: no deadlock. The unsubscriber's own drain
+    is what unblocks a broadcaster that is pushing to the very channel being unsubscribed — its consumer is not needed;
+so every maximal such run ends, within `mu s` steps, in a state where every `Send`, `SubscribeChannel` and
+`Unsubscribe` has returned; (c) one such run is exhibited. What the other subscribers hold is given by
+`tracer_segment` in every state on the way. -/
+theorem tracer_unsub_progress (cfg : Cfg) (hdr : cfg.unsubDrains = true) (sched : List Act) (s : St)
+    (hs : s = run cfg init sched) :
+    s.misuse = false →
+    (∀ acts, (∀ a ∈ acts, a.isEnv = false) → allEnabled cfg s acts →
+        acts.length ≤ s.mu ∧
+        ((run cfg s acts).Busy → ∃ a, a.isEnv = false ∧ (step cfg (run cfg s acts) a).isSome = true)) ∧
+    (∃ acts, (∀ a ∈ acts, a.isEnv = false) ∧ allEnabled cfg s acts ∧ acts.length ≤ s.mu ∧ ¬ (run cfg s acts).Busy) := by
+  intro hm
+  have hinv : Inv s := by rw [hs] at hm ⊢; exact inv_run cfg sched hm
+  constructor
+  · intro acts hsys hen
+    obtain ⟨h1, _, h3⟩ := inv_allEnabled acts s hinv hm hsys hen
+    exact ⟨by omega, fun hb => no_deadlock hdr h1 hb⟩
+  · obtain ⟨acts, h1, h2, h3⟩ := completes hdr s.mu s (Nat.le_refl _) hinv hm
+    obtain ⟨_, _, h6⟩ := inv_allEnabled acts s hinv hm h1 h2
+    exact ⟨acts, h1, h2, by omega, h3⟩
+
+/-! ## 4. what lies outside, as kernel-checked witnesses -/
+
+/-- the schedule: one subscriber (unbuffered channel) subscribes; a sender's trace is taken by the broadcaster, which
+now blocks in `subscriber <- trace`; the subscriber stops reading and calls `Unsubscribe` -/
+def nodrainSched : List Act :=
+  [.callSub 0, .recvSub 0, .subReturn 0, .callSend 0, .recvTrace 0, .callUnsub 0]
+
+/-- Without the `case <-channel` alternative in the `Unsubscribe` loop the same situation is a deadlock: the
+broadcaster waits for the subscriber to read, the subscriber waits for the broadcaster to take its request, and no
+goroutine inside the protocol can move — the `Send` has returned but the `Unsubscribe` never does. -/
+theorem tracer_nodrain_deadlock :
+    let cfg : Cfg := { unsubDrains := false }
+    let s := run cfg init nodrainSched
+    s.misuse = false ∧ s.Busy ∧ ∀ a, a.isEnv = false → step cfg s a = none := by
+  intro cfg s
+  have hpc : s.pc = .push ⟨0, 0⟩ 0 := rfl
+  have hsubs : s.subs = [0] := rfl
+  have hchan : ∀ c, (s.chan c).stat = if c = 0 then .unsubOffer else .absent := by
+    intro c
+    by_cases hc : c = 0
+    · subst hc; rfl
+    · have : s.chan c = {} := by
+        show (if c = 0 then _ else if c = 0 then _ else if c = 0 then _ else if c = 0 then _ else _) = _
+        simp [hc, init]
+      rw [this]; simp [hc]
+  have hbuf : (s.chan 0).buf = [] ∧ (s.chan 0).cap = 0 := ⟨rfl, rfl⟩
+  refine ⟨rfl, Or.inr (Or.inl (by rw [hpc]; simp)), ?_⟩
+  intro a ha
+  cases a with
+  | callSub cap => cases ha
+  | callUnsub c => cases ha
+  | callSend sd => cases ha
+  | recvTrace k => simp [step, hpc]
+  | recvSub c => simp [step, hpc]
+  | recvUnsub c => simp [step, hpc]
+  | push => simp [step, hpc, hsubs, hbuf]
+  | consume c =>
+    have := hchan c
+    by_cases hc : c = 0
+    · subst hc; simp only [if_true] at this; simp [step, this]
+    · simp only [hc, if_false] at this; simp [step, this]
+  | drain c => simp [step, cfg]
+  | subReturn c =>
+    have := hchan c
+    by_cases hc : c = 0
+    · subst hc; simp only [if_true] at this; simp [step, this]
+    · simp only [hc, if_false] at this; simp [step, this]
+  | takeOk c => simp [step, hpc]
+
+/-- with the drain the same schedule continues: `Unsubscribe` drains the trace, is removed, acknowledged, returns -/
+example :
+    let cfg : Cfg := {}
+    let s := run cfg init (nodrainSched ++ [.drain 0, .recvUnsub 0, .takeOk 0])
+    s.pc = .idle ∧ (s.chan 0).stat = .done ∧ (s.chan 0).drained = [⟨0, 0⟩] ∧ s.subs = [] := by
+  exact ⟨rfl, rfl, rfl, rfl⟩
+
+/-- one subscriber subscribes, unsubscribes, and calls `Unsubscribe` a second time; then the broadcaster takes the
+request `n` times -/
+def spinSched (n : Nat) : List Act :=
+  [.callSub 1, .recvSub 0, .subReturn 0, .callUnsub 0, .recvUnsub 0, .takeOk 0, .callUnsub 0] ++
+    List.replicate n (.recvUnsub 0)
+
+/-- Outside the statement (noted in DESIGN.md): `Unsubscribe` of a channel that is not subscribed never returns.
+The broadcaster finds `pos = -1`, sends no acknowledgement, and the loop offers the request again — for every `n`,
+after the broadcaster has taken the request `n` times the call is still where it was. -/
+theorem unsubscribe_unsubscribed_spins (cfg : Cfg) (n : Nat) :
+    let s := run cfg init (spinSched n)
+    (s.chan 0).stat = .unsubOffer ∧ s.pc = .idle ∧ s.misuse = true := by
+  induction n with
+  | zero => exact ⟨rfl, rfl, rfl⟩
+  | succ n ih =>
+    intro s
+    have hs : s = step' cfg (run cfg init (spinSched n)) (.recvUnsub 0) := by
+      show run cfg init (spinSched (n + 1)) = _
+      unfold spinSched
+      rw [List.replicate_succ', ← List.append_assoc, run_append]
+      rfl
+    obtain ⟨h1, h2, h3⟩ := ih
+    have hsubs : (run cfg init (spinSched n)).subs = [] := by
+      clear hs h1 h2 h3 s
+      induction n with
+      | zero => rfl
+      | succ n ih2 =>
+        have e : run cfg init (spinSched (n + 1)) = step' cfg (run cfg init (spinSched n)) (.recvUnsub 0) := by
+          unfold spinSched
+          rw [List.replicate_succ', ← List.append_assoc, run_append]
+          rfl
+        rw [e]
+        unfold step'
+        cases hst : step cfg (run cfg init (spinSched n)) (.recvUnsub 0) with
+        | none => exact ih2
+        | some s' =>
+          simp only [step] at hst
+          split at hst
+          · rw [ih2] at hst; simp at hst; rw [← hst]; exact ih2
+          · cases hst
+    have hstep : step cfg (run cfg init (spinSched n)) (.recvUnsub 0) = some (run cfg init (spinSched n)) := by
+      simp only [step, h2, h1, hsubs]
+      simp
+    rw [hs]
+    unfold step'
+    rw [hstep]
+    exact ⟨h1, h2, h3⟩
+
+/-! ## non-vacuity: a concrete run with two subscribers, a swap-removal in the middle, and three senders' traces -/
+
+def demoSched : List Act :=
+  [ .callSub 1, .recvSub 0, .subReturn 0,            -- channel 0, buffer 1
+    .callSend 7, .recvTrace 0, .push,                 -- 7:0 → [0]
+    .callSub 0, .recvSub 1, .subReturn 1,             -- channel 1, unbuffered, joins after 7:0
+    .callSub 2, .recvSub 2, .subReturn 2,             -- channel 2, buffer 2
+    .callSend 8, .callSend 7, .recvTrace 1,           -- 7:1 overtakes 8:0
+    .consume 0, .push, .consume 1, .push,             -- 7:1 → 0, 1 (rendezvous), 2
+    .callUnsub 0, .recvUnsub 0, .takeOk 0,            -- channel 0 leaves: the list [0,1,2] becomes [2,1]
+    .recvTrace 0, .push, .consume 1 ]                 -- 8:0 → 2, then 1
+
+example :
+    let s := run {} init demoSched
+    s.misuse = false ∧ s.subs = [2, 1] ∧ s.log = [⟨7, 0⟩, ⟨7, 1⟩, ⟨8, 0⟩] ∧
+    (s.chan 0).recvd = [⟨7, 0⟩] ∧ (s.chan 0).drained = [] ∧ (s.chan 0).buf = [⟨7, 1⟩] ∧
+    (s.chan 0).start = 0 ∧ s.upto 0 = 2 ∧
+    (s.chan 1).recvd = [⟨7, 1⟩, ⟨8, 0⟩] ∧ (s.chan 1).start = 1 ∧ s.upto 1 = 3 ∧
+    (s.chan 2).buf = [⟨7, 1⟩, ⟨8, 0⟩] ∧ (s.chan 2).start = 1 := by
+  refine ⟨rfl, rfl, rfl, rfl, rfl, rfl, rfl, rfl, rfl, rfl, rfl, rfl, rfl⟩
+
+/-- the hypotheses of `tracer_unsub_progress` are met by a state with calls in flight -/
+example :
+    let s := run {} init [.callSub 0, .recvSub 0, .subReturn 0, .callSend 0, .recvTrace 0, .callUnsub 0, .callSend 1]
+    s.misuse = false ∧ s.Busy ∧ s.mu = 7 := by
+  refine ⟨rfl, Or.inl (by decide), rfl⟩
+
+
+/-! ## the drain is what the progress theorem hangs on: a dichotomy over the extracted fact -/
+
+/-- what is claimed at a given value of the fact "the `Unsubscribe` loop drains its own channel" -/
+def ProgressClaim (drains : Bool) : Prop :=
+  if drains then
+    ∀ (cfg : Cfg), cfg.unsubDrains = true → ∀ (sched : List Act) (s : St), s = run cfg init sched → s.misuse = false →
+      (∀ acts, (∀ a ∈ acts, a.isEnv = false) → allEnabled cfg s acts →
+          acts.length ≤ s.mu ∧
+          ((run cfg s acts).Busy → ∃ a, a.isEnv = false ∧ (step cfg (run cfg s acts) a).isSome = true)) ∧
+      (∃ acts, (∀ a ∈ acts, a.isEnv = false) ∧ allEnabled cfg s acts ∧ acts.length ≤ s.mu ∧ ¬ (run cfg s acts).Busy)
+  else
+    ∃ sched, (run { unsubDrains := false } init sched).misuse = false ∧ (run { unsubDrains := false } init sched).Busy ∧
+      ∀ a, a.isEnv = false → step { unsubDrains := false } (run { unsubDrains := false } init sched) a = none
+
+theorem progress_dichotomy (drains : Bool) : ProgressClaim drains := by
+  cases drains with
+  | true =>
+    intro cfg hdr sched s hs hm
+    exact tracer_unsub_progress cfg hdr sched s hs hm
+  | false => exact ⟨nodrainSched, tracer_nodrain_deadlock⟩
 
 end Bpmn.Props.C09
